@@ -544,7 +544,7 @@ class Table:
 
 # ----------------------------------------------------------------------------
 NUMERIC_MODULES = {'np', 'numpy', 'math', 'numba', 'scipy', 'sp'}
-ERASED_CALLS = {'float', 'float64', 'asarray', 'array', 'ravel', 'flatten',
+ERASED_CALLS = {'float', 'float64', 'asarray', 'asanyarray', 'array', 'ravel', 'flatten',
                 'copy', 'ascontiguousarray', 'squeeze', 'tolist'}
 PI_NAMES = {'pi', 'PI'}
 
